@@ -304,8 +304,34 @@ var senInputs = [][]byte{
 	[]byte(`[1 2] [3] }`), []byte(`[a b] {c:[d e]} {`), []byte(`[[x] [y]] [z] ]`), []byte(`[7 8 9]`), []byte(`{l:[1 [2 [3]]]}`),
 }
 
+// longDoc is several read buffers long (the parsers read 4096 bytes at a time); its elements name their stream and
+// their position, so data that ends up in another call's result can be told by looking at it.
+func longDoc(t *rapid.T) []byte {
+	pre := []string{"a", "b", "c"}[sim.Intn(t, 3, "stream")]
+	size := 4096*(1+sim.Intn(t, 3, "bufs")) + sim.Intn(t, 64, "over") - 8
+	var b bytes.Buffer
+	b.WriteByte('[')
+	for i := 0; b.Len() < size; i++ {
+		if i > 0 {
+			b.WriteByte(',')
+		}
+		fmt.Fprintf(&b, `"%s%04d"`, pre, i)
+	}
+	b.WriteByte(']')
+	d := b.Bytes()
+	switch sim.Intn(t, 3, "damage") {
+	case 1:
+		d[sim.Intn(t, len(d), "at")] = '}'
+	case 2:
+		d = d[:sim.Intn(t, len(d), "cut")]
+	}
+	return d
+}
+
 func drawParseInput(t *rapid.T, senFamily bool) []byte {
-	switch sim.Weighted(t, "inkind", 4, 3, 2) {
+	switch sim.Weighted(t, "inkind", 8, 6, 4, 1) {
+	case 3:
+		return longDoc(t)
 	case 0:
 		if senFamily && sim.Bool(t, "sen") {
 			return append([]byte(nil), senInputs[sim.Intn(t, len(senInputs), "senin")]...)
@@ -797,9 +823,24 @@ func canonErr(err error, docs []any) string {
 // exec runs one operation in world w. The caller's input buffer is overwritten afterwards.
 func (o *op07) exec(w *world07) (r *res07) {
 	r = &res07{}
+	// the simulated streams know the goroutine of the call they are handed to and are told when it has returned (sim/foreign.go)
+	var owned []*sim.SimWriter
+	defer func() {
+		for _, sw := range owned {
+			sw.Done()
+		}
+	}()
+	newSW := func() *sim.SimWriter {
+		sw := sim.NewSimWriter(o.FailCall)
+		sw.Own()
+		owned = append(owned, sw)
+		return sw
+	}
 	var rd *sim.SimReader
 	if o.Sched != nil {
 		rd = sim.NewSimReader(o.Input, o.Sched)
+		rd.Own()
+		defer rd.Done()
 	}
 	buf := append([]byte(nil), o.Input...)
 	defer func() {
@@ -1006,7 +1047,7 @@ func (o *op07) exec(w *world07) (r *res07) {
 				r.Retained = []any{out}
 			}
 		default:
-			sw := sim.NewSimWriter(o.FailCall)
+			sw := newSW()
 			err := w.ojW.Write(sw, o.Value)
 			finishText(nil, err, sw)
 		}
@@ -1017,7 +1058,7 @@ func (o *op07) exec(w *world07) (r *res07) {
 		if o.Fn == "SEN" {
 			finishText([]byte(w.senW.SEN(o.Value)), nil, nil)
 		} else {
-			sw := sim.NewSimWriter(o.FailCall)
+			sw := newSW()
 			err := w.senW.Write(sw, o.Value)
 			finishText(nil, err, sw)
 		}
@@ -1039,7 +1080,7 @@ func (o *op07) exec(w *world07) (r *res07) {
 			out, err := w.prW.Marshal(o.Value)
 			finishText(append([]byte(nil), out...), err, nil)
 		default:
-			sw := sim.NewSimWriter(o.FailCall)
+			sw := newSW()
 			err := w.prW.Write(sw, o.Value)
 			finishText(nil, err, sw)
 		}
@@ -1053,11 +1094,11 @@ func (o *op07) exec(w *world07) (r *res07) {
 		case "SEN":
 			finishText([]byte(pretty.SEN(o.Value, parg, align, &opt)), nil, nil)
 		case "WriteJSON":
-			sw := sim.NewSimWriter(o.FailCall)
+			sw := newSW()
 			err := pretty.WriteJSON(sw, o.Value, parg, align, &opt)
 			finishText(nil, err, sw)
 		default:
-			sw := sim.NewSimWriter(o.FailCall)
+			sw := newSW()
 			err := pretty.WriteSEN(sw, o.Value, parg, align, &opt)
 			finishText(nil, err, sw)
 		}
@@ -1080,7 +1121,7 @@ func (o *op07) exec(w *world07) (r *res07) {
 				r.Retained = []any{out}
 			}
 		case "Write":
-			sw := sim.NewSimWriter(o.FailCall)
+			sw := newSW()
 			err := oj.Write(sw, o.Value)
 			finishText(nil, err, sw)
 		case "JSON(int)":
@@ -1092,12 +1133,12 @@ func (o *op07) exec(w *world07) (r *res07) {
 				r.Retained = []any{out}
 			}
 		case "Write(int)":
-			sw := sim.NewSimWriter(o.FailCall)
+			sw := newSW()
 			err := oj.Write(sw, o.Value, o.Limit%5)
 			finishText(nil, err, sw)
 		default:
 			opt.WriteLimit = o.Limit
-			sw := sim.NewSimWriter(o.FailCall)
+			sw := newSW()
 			err := oj.Write(sw, o.Value, &opt)
 			finishText(nil, err, sw)
 		}
@@ -1114,16 +1155,16 @@ func (o *op07) exec(w *world07) (r *res07) {
 			finishText(append([]byte(nil), b...), nil, nil)
 			r.Retained = []any{b}
 		case "Write(int)":
-			sw := sim.NewSimWriter(o.FailCall)
+			sw := newSW()
 			err := sen.Write(sw, o.Value, o.Limit%5)
 			finishText(nil, err, sw)
 		case "Write":
-			sw := sim.NewSimWriter(o.FailCall)
+			sw := newSW()
 			err := sen.Write(sw, o.Value)
 			finishText(nil, err, sw)
 		default:
 			opt.WriteLimit = o.Limit
-			sw := sim.NewSimWriter(o.FailCall)
+			sw := newSW()
 			err := sen.Write(sw, o.Value, &opt)
 			finishText(nil, err, sw)
 		}
@@ -1202,10 +1243,14 @@ func snapshot(vals []any) string {
 }
 
 func propC07(cx *sim.Ctx) {
-	sim.Declare([]string{"pool_get_reused_most_recent", "pool_get_reused_other", "pool_get_new", "pool_put_dropped", "fault_fired_only_in_reference"}, []string{"reader_error", "writer_error", "caller_callback_panic", "simplifier_panic", "process_restart"})
+	sim.Declare([]string{"pool_get_reused_most_recent", "pool_get_reused_other", "pool_get_new", "pool_put_dropped", "fault_fired_only_in_reference", "io_on_a_goroutine_of_the_library"}, []string{"reader_error", "writer_error", "caller_callback_panic", "simplifier_panic", "process_restart", "late_delivery_after_abandoned_call"})
 	t := cx.T
 	c := &case07{RestartAt: -1}
 	c.Faults = sim.Intn(t, 3, "faultconfig") > 0
+	// how many later stream calls go by before a slow source delivers what an abandoned call left outstanding (only
+	// matters when the code under test does I/O on a goroutine of its own; see sim/foreign.go)
+	sim.LateK = sim.Intn(t, 3, "latek")
+	defer sim.ReleaseLate()
 	th := drawTheme07(t)
 	ops := rapid.SliceOfN(rapid.Custom(func(t *rapid.T) *op07 { return drawOp07(t, c.Faults, th) }), 2, 10).Draw(t, "ops")
 	// resolve the "keep" calls: they run on the options the user set last on that subject
@@ -1258,6 +1303,7 @@ func propC07(cx *sim.Ctx) {
 		fw := newWorld07()
 		fw.fresh = true
 		refRes[i] = o.exec(fw)
+		sim.ReleaseLate() // (what a fresh instance left outstanding is delivered at once: nobody uses that instance again)
 		cx.Exec()
 	}
 	cx.BaselineDone()
@@ -1364,13 +1410,13 @@ func propC07(cx *sim.Ctx) {
 			}
 		}
 		for _, kw := range writers {
-			if len(kw.w.Calls) != kw.calls {
-				cx.Fail(fmt.Sprintf("C07/stability/late-write/%s.%s", c.Ops[kw.op].Subj, c.Ops[kw.op].Fn), fmt.Sprintf("the io.Writer handed to op %d received %d more Write call(s) during op %d (%s)", kw.op, len(kw.w.Calls)-kw.calls, i, o), map[string]any{"subject": c.Ops[kw.op].Subj, "fn": c.Ops[kw.op].Fn, "later": o.Subj + "." + o.Fn})
+			if kw.w.NCalls() != kw.calls {
+				cx.Fail(fmt.Sprintf("C07/stability/late-write/%s.%s", c.Ops[kw.op].Subj, c.Ops[kw.op].Fn), fmt.Sprintf("the io.Writer handed to op %d received %d more Write call(s) during op %d (%s)", kw.op, kw.w.NCalls()-kw.calls, i, o), map[string]any{"subject": c.Ops[kw.op].Subj, "fn": c.Ops[kw.op].Fn, "later": o.Subj + "." + o.Fn})
 				break
 			}
 		}
 		if r.Writer != nil {
-			writers = append(writers, keptWriter{op: i, w: r.Writer, calls: len(r.Writer.Calls)})
+			writers = append(writers, keptWriter{op: i, w: r.Writer, calls: r.Writer.NCalls()})
 		}
 		// (an aborted call is not judged for freshness, but what it did hand over before it failed is the caller's)
 		if !r.Volatile && len(r.Retained) > 0 {
